@@ -4,6 +4,7 @@ CONSTANTS
   RenderSetsType = FALSE
   BodilessByLine = FALSE
   ForgetCloseOnFault = TRUE
+  StaleLengthOnRenderFault = FALSE
   Tier = "tiny"
   Ifaces = {"wsgi", "asgi"}
   Codes = {200, 204}
